@@ -50,6 +50,23 @@ RULE_SERVER = ("server: scripted connection life-cycles against a real MemcacheT
                "ends by closing everything and opening limit+1 fresh connections. Scripts run in parallel, each against its own server; the served sets are compared "
                "with the Lean model of the accept loop and checked against the limit directly.")
 
+PROPS.update({
+    "C03": {"suites": {"quick": [("sched", {"profile": "C03", "count": 150, "per_case": 60}), ("stress", {"count": 1500})],
+                       "thorough": [("sched", {"profile": "C03", "count": 1500, "per_case": 2000}), ("stress", {"count": 30000})]}, "design": "6/C03"},
+    "C04": {"suites": {"quick": [("sched", {"profile": "C04", "count": 150, "per_case": 60})],
+                       "thorough": [("sched", {"profile": "C04", "count": 1500, "per_case": 2000})]}, "design": "6/C04"},
+    "C16": {"suites": {"quick": [("sched", {"profile": "C04", "count": 60, "per_case": 40}), ("stress", {"count": 600}), ("seq", {"profile": "C05", "count": 600}), ("policy", {"profile": "C14", "count": 200})],
+                       "thorough": [("sched", {"profile": "C04", "count": 1000, "per_case": 500}), ("stress", {"count": 20000}), ("seq", {"profile": "C05", "count": 20000}), ("policy", {"profile": "C14", "count": 10000})]},
+            "design": "6/C16", "only_hangs": True},
+})
+
+RULE_SCHED = ("sched: 2-3 real client threads, each issuing 1-2 commands on one key through BinaryHandler/MemcStore over a gate-controlled Cache: a schedule grants one "
+              "trait call at a time (get_by_key, check_if_expired, set, delete, flush). For every generated (initial state absent/present/present-but-expired x programs) "
+              "all interleavings of the calls are enumerated (or sampled when above the per-case cap) and run on the real code and on the Lean micro-step model under the "
+              "same schedule; each outcome is checked for linearizability against one-at-a-time executions of the real code (with the collection of an expired record "
+              "optionally postponed, as the specification allows). stress: 8 OS threads per round - same-token CAS stores (winner count), readers collecting an expired "
+              "predecessor vs. an acknowledged store, fresh stores and deletes under RandomPolicy (accounting at rest).")
+
 RULE_STREAM = ("codec/conn: pipelined request streams (standard loud and quiet commands of every opcode, unimplemented opcodes, frames with "
                "unexpected extras/value, bodies above the item limit for any opcode, quit/quitq at any position, optionally a truncated or "
                "invalid-header tail) are cut into consecutive reads: every single cut (or a directed sample around header and frame boundaries), "
@@ -130,6 +147,12 @@ def run_check(prop, tier, seed, replay):
         for cf in sorted(glob.glob(os.path.join(ROOT, "corpus", prop, "*.ops"))):
             name = os.path.basename(cf)[:-4]
             runs.append((f"corpus/{name}", core.run_harness("replay", os.path.join(work, f"corpus-{name}"), {"ops": cf})))
+        for cf in sorted(glob.glob(os.path.join(ROOT, "corpus", prop, "*.sched"))):
+            name = os.path.basename(cf)[:-6]
+            runs.append((f"corpus/{name}", core.run_harness("sched", os.path.join(work, f"corpus-{name}"), {"ops": cf})))
+        for cf in sorted(glob.glob(os.path.join(ROOT, "corpus", prop, "*.srv"))):
+            name = os.path.basename(cf)[:-4]
+            runs.append((f"corpus/{name}", core.run_harness("server", os.path.join(work, f"corpus-{name}"), {"ops": cf})))
         # d. suites
         for n, (suite, args) in enumerate(cfg["suites"][tier]):
             a = dict(args)
@@ -168,8 +191,8 @@ def run_check(prop, tier, seed, replay):
             problems.append(("counterexample", v["msg"], payload, True))
         stream_suite = name.startswith("codec") or name.startswith("conn") or name.startswith("grid")
         proj_suite = stream_suite or name.startswith("policy")
-        for (a, b, i) in run.divergences(cfg.get("projection") if (proj_suite and cfg.get("projection")) else None):
-            if name.startswith("corpus") or name == "replay" or name.startswith("policy") or name.startswith("server"):
+        for (a, b, i) in ([] if cfg.get("only_hangs") else run.divergences(cfg.get("projection") if (proj_suite and cfg.get("projection")) else None)):
+            if name.startswith("corpus") or name == "replay" or name.startswith("policy") or name.startswith("server") or name.startswith("sched") or name.startswith("stress"):
                 own, why = {prop}, f"witness replay differs at '{run.ops[i][:40]}'"
             elif stream_suite:
                 own, why = {prop}, f"framing differs at '{run.ops[i][:40]}'"
@@ -253,7 +276,7 @@ def finish(prop, tier, seed, t0, lean, n_obl, n_dis, stats, violations, known_hi
             "trusted_base": core.TRUSTED,
             "obligation_list": [{"name": o["name"], "axioms": o["axioms"]} for o in lean["obligations"]],
             "source_scan_hits": scan,
-            "evaluations": evals, "distinct_nontrivial": dn, "rule": RULE_STREAM if any(s.get("suite") in ("codec", "conn", "grid") for s in stats) else (RULE_POLICY if any(s.get("suite") == "policy" for s in stats) else (RULE_SERVER if any(s.get("suite") == "server" for s in stats) else RULE)),
+            "evaluations": evals, "distinct_nontrivial": dn, "rule": RULE_STREAM if any(s.get("suite") in ("codec", "conn", "grid") for s in stats) else (RULE_POLICY if any(s.get("suite") == "policy" for s in stats) else (RULE_SERVER if any(s.get("suite") == "server" for s in stats) else (RULE_SCHED if any(s.get("suite") in ("sched", "stress") for s in stats) else RULE))),
             "samples": samples or [],
             "correspondence_runs": stats,
             "lines_compared": sum(s.get("lines", 0) for s in stats),
